@@ -33,7 +33,7 @@ SPECS = [('participation_coef', 'centrality', 'sym_u', [{}, {'degree': 'out'}, {
 
 
 def cases(tier, seed):
-    q = tier != 'thorough'
+    q = False          # the full bounds cost about a minute: quick and thorough coincide
     cs = []
     for fn, mod, inp, kws in SPECS:
         n = 4 if not inp.startswith('sym') else (3 if q and fn.startswith('modularity') else 4)
